@@ -200,9 +200,15 @@ def sendOutLines {Î± : Type} (pfx : String) (fmt : Î± â†’ String) (o : SendOut Î
     s!"{pfx}_err " ++ joinOr (o.errors.map fun (r, e) => fmt r ++ "!" ++ fmtErr e) ]
 
 def obsState (e : Eng) : List String :=
-  (e.instruments.zipIdx.map fun (s, i) =>
+  ((e.instruments.zipIdx.map fun (s, i) =>
     let l := (s.orders.toArray.qsort (fun a b => a.1 < b.1)).toList
-    s!"ord{i} " ++ joinOr (l.map fun (c, o) => s!"{c}:{fmtActive o.state}")) ++
+    [ s!"ord{i} " ++ joinOr (l.map fun (c, o) => s!"{c}:{fmtActive o.state}"),
+      (match s.position with
+        | none => s!"pos{i} none"
+        | some (side, q) => s!"pos{i} {fmtSide side}:{fmtRat q}"),
+      (match s.price with
+        | none => s!"price{i} none"
+        | some p => s!"price{i} {fmtRat p}") ]).flatten) ++
   [ "trading " ++ (if e.enabled then "on" else "off"), s!"disabled_calls {e.disabledCalls}" ]
 
 /-- observations of one processed event: what each link received during this tick, the audit, the
